@@ -74,7 +74,15 @@ def find_loops(fi, kind=(ast.While, ast.For)):
 def loop_containing_call(P, fi, pred, kind=(ast.While,)):
     """The loops of fi whose body contains a call whose callee satisfies pred."""
     res = []
-    for loop in find_loops(fi, kind):
+    loops = list(find_loops(fi, kind))
+    if ast.While in (kind if isinstance(kind, tuple) else (kind,)):
+        # `for v in itertools.count(): ... break` is evaluated as a counting while loop (paths.synth_count_loop)
+        from ..paths import synth_count_loop
+        for f in find_loops(fi, (ast.For,)):
+            sy = synth_count_loop(P, fi, f)
+            if sy is not None:
+                loops.append(sy[1])
+    for loop in loops:
         for n in ast.walk(loop):
             if isinstance(n, ast.Call):
                 ca = P.resolve_callee(fi.module, fi, n.func)
@@ -131,6 +139,22 @@ def flatten_comp(t):
             elt = _fold_subs(elt)
             return ('comp', t[1], elt, it[3])
         return ('comp', t[1], t[2], ((var, it, conds),))
+    return t
+
+
+def unzip_comp(t):
+    """[f(a, b) for a, b in zip(A, [g(v) for v in A])]  ->  [f(a, g(a)) for a in A]"""
+    from ..paths import substitute
+    if t[0] == 'comp' and len(t[3]) == 1:
+        var, it, conds = t[3][0]
+        if var[0] == 'tuple' and len(var[1]) == 2 and it[0] == 'call' and it[1] == 'builtins.zip' and len(it[2]) == 2:
+            A, B = it[2]
+            B = flatten_comp(B)
+            if B[0] == 'comp' and len(B[3]) == 1 and not B[3][0][2] and B[3][0][1] == A:
+                a, b = var[1]
+                inner = substitute(B[2], {B[3][0][0]: a})
+                elt = _fold_subs(substitute(t[2], {b: inner}))
+                return ('comp', t[1], elt, ((a, A, conds),))
     return t
 
 
